@@ -269,12 +269,15 @@ MANIFEST = {
     "design_ref": "DESIGN.md §5 C12",
     "technique": "Lean 4 frame lemmas on the engine model (backward and non-in-place ops write no buffer; every stored gradient "
                  "is a fresh array object) + correspondence + checksum/aliasing oracle over programs and op families",
-    "text": "Proved on the engine model for all programs: backward() leaves every buffer (all tensors' data) unchanged "
-            "(backward_frames_data), a non-in-place op writes only a fresh buffer (op_frames_input_data), and every gradient "
-            "stored by backward is a distinct fresh array object (stored_grads_are_fresh_objects). The model is run against "
-            "MyGrad; the direct oracle checksums every caller-owned array (operands, index arrays, masks, seeds — owning, "
-            "non-owning and of another dtype) and every tensor's data around every call, tests pairwise memory sharing of all "
-            "stored gradients with each other, with all data and with the seed, and edits each gradient in place.",
+    "text": "Proved on the engine model for all programs: backward() — completed, rejected or interrupted — "
+            "leaves every array buffer unchanged (backward_frames_data); a non-in-place op leaves every "
+            "pre-existing buffer unchanged, writing fresh buffers only (op_frames_input_data); the gradients "
+            "backward stores are consecutive fresh array objects, hence pairwise distinct and distinct from "
+            "anything that existed (stored_grads_are_fresh_objects). The model is run against MyGrad; the direct "
+            "oracle checksums every caller-owned array (operands, index arrays, masks, seeds — owning, non-owning "
+            "and of another dtype) and every tensor's data around every call, tests pairwise memory sharing of "
+            "all stored gradients with each other, with all data and with the seed, and edits each gradient in "
+            "place.",
     "note": "Trusted: Lean kernel, standard axioms, correspondence harness. Whether a particular backward_var returns its "
             "argument, a view of it or cached state is measured per op family by the oracle (alias signatures), not modelled in "
             "Lean; ops with hand-written backward (GRU) are covered by the oracle only.",
